@@ -10,8 +10,19 @@ C06 ops.
     mutation := ver:N | lock:N | seq:i:N | pidx:i:N | phash:i:HEX | sol:i:HEX | wit:i:WITNESS | oval:j:N | oscr:j:HEX
               | delin:i | insin:i:TXIN(with "," for ":") | swapin:i:j | swapsol:i:j | delout:j | insout:j:N,HEX | swapout:i:j
               | us:i:none | us:i:N,HEX | usdrop | nop
-    verdict of input j = what the hash types of its signatures dictate: its spent output is known, its unlocking data and
-    the spent script are those that were signed, and every signed preimage is unchanged.
+              | uskey:i:BIT (flip one bit inside the data pushes — key hash, script hash, witness program, keys — of the standard
+                spent script of input i) | usnop:i (append OP_NOP to the spent script) | uspre:i (put OP_NOP in front of it)
+    verdict of input j = what the hash types of its signatures dictate: its spent output is known, its unlocking data is that
+    of a signed input (its own, or after swapsol another one's), the spent script is the one that was signed with it, and
+    every signed preimage is unchanged at the position the input has NOW.  A spent script that differs from the signed one
+    only inside the hash push of P2PKH / P2SH / P2WPKH / P2WSH dictates '0' (C06_spent_script_hash_fails_*); for the kinds whose
+    script code is the spent script itself (P2PKH, P2PK, bare multisig through the closure of _make_sighash_f) a key changed
+    or an OP_NOP appended / prepended dictates '0' when a committed preimage — now over the new script code — differs
+    (C06_tamper_fails_p2pkh_script_nop, C06_tampered_of_fields_legacy); everything else about a changed script or changed
+    unlocking data is '?'.
+
+    c06_each coin tx us meta steps   as c06_hist, but every step is applied to the SIGNED state on its own (a table of single
+        mutations): answer = verdicts of the signed state, then one verdict vector per step
 
     c06_guards coin tx us      missing_unspent(i) for every i, missing_unspents(), and which is_solution_ok(i) are refused by the guard
     c06_cache salt hts         one checksigs execution (the closure returns ht*7+salt): the messages handed to verify and the hash types actually computed
@@ -56,6 +67,61 @@ def modIn (h : Hist) (i : Nat) (f : TxIn → TxIn) : Hist :=
 def modOut (h : Hist) (j : Nat) (f : TxOut → TxOut) : Hist :=
   { h with st := { h.st with tx := { h.st.tx with outs := h.st.tx.outs.modify j f } } }
 
+/-! ### standard spent scripts and their data pushes -/
+
+inductive SpkKind | p2pkh | p2sh | p2wpkh | p2wsh | p2pk | multisig | other
+  deriving DecidableEq, Repr
+
+/-- the keys of `OP_m <key>… OP_n CHECKMULTISIG` between the two counts: byte ranges `[start, end)` of the key data -/
+def keyRegions : Nat → Bytes → Nat → Option (List (Nat × Nat))
+  | 0, _, _ => none
+  | _ + 1, [], _ => some []
+  | fuel + 1, l :: rest, pos =>
+    if (l.toNat = 33 ∨ l.toNat = 65) ∧ l.toNat ≤ rest.length then
+      (keyRegions fuel (rest.drop l.toNat) (pos + 1 + l.toNat)).map fun r => (pos + 1, pos + 1 + l.toNat) :: r
+    else none
+
+/-- the template of a spent script and the byte ranges of its data pushes (key hash, script hash, witness program, keys) -/
+def spkTemplate (s : Bytes) : SpkKind × List (Nat × Nat) :=
+  let n := s.length
+  if n = 25 ∧ s.take 3 = [0x76, 0xa9, 0x14] ∧ s.drop 23 = [0x88, 0xac] then (.p2pkh, [(3, 23)])
+  else if n = 23 ∧ s.take 2 = [0xa9, 0x14] ∧ s.drop 22 = [0x87] then (.p2sh, [(2, 22)])
+  else if n = 22 ∧ s.take 2 = [0x00, 0x14] then (.p2wpkh, [(2, 22)])
+  else if n = 34 ∧ s.take 2 = [0x00, 0x20] then (.p2wsh, [(2, 34)])
+  else if (n = 35 ∧ s.take 1 = [33] ∨ n = 67 ∧ s.take 1 = [65]) ∧ s.drop (n - 1) = [0xac] then (.p2pk, [(1, n - 1)])
+  else
+    match s.head?, s[n - 2]?, s.drop (n - 1) with
+    | some m, some k, [0xae] =>
+      if 0x51 ≤ m.toNat ∧ m.toNat ≤ 0x60 ∧ 0x51 ≤ k.toNat ∧ k.toNat ≤ 0x60 ∧ 3 ≤ n then
+        match keyRegions n ((s.drop 1).take (n - 3)) 1 with
+        | some r => if r.length = k.toNat - 0x50 ∧ m.toNat ≤ k.toNat then (.multisig, r) else (.other, [])
+        | none => (.other, [])
+      else (.other, [])
+    | _, _, _ => (.other, [])
+
+def inRegions (r : List (Nat × Nat)) (i : Nat) : Bool := r.any fun p => decide (p.1 ≤ i ∧ i < p.2)
+
+/-- `b` has the template of `a` and differs from it, inside the data pushes only -/
+def dataDiffOnly (r : List (Nat × Nat)) (a b : Bytes) : Bool :=
+  a.length == b.length && a != b &&
+    ((List.range a.length).all fun i => inRegions r i || a[i]? == b[i]?)
+
+/-- flip bit `bit` (counted through the data pushes, modulo their total size) -/
+def flipDataBit (s : Bytes) (bit : Nat) : Option Bytes :=
+  let r := (spkTemplate s).2
+  let pos := (List.range s.length).filter (inRegions r)
+  if pos.isEmpty then none
+  else
+    let b := bit % (8 * pos.length)
+    match pos[b / 8]? with
+    | some i => some (s.modify i fun x => x ^^^ (UInt8.ofNat (1 <<< (b % 8))))
+    | none => none
+
+def modUs (h : Hist) (i : Nat) (f : Bytes → Option Bytes) : Option Hist :=
+  match h.st.us[i]?.join with
+  | some o => (f o.script).map fun sc => { h with st := { h.st with us := h.st.us.set i (some { o with script := sc }) } }
+  | none => none
+
 def applyStep (h : Hist) (cmd : String) : Option Hist :=
   match cmd.splitOn ":" with
   | ["nop"] => some h
@@ -83,7 +149,8 @@ def applyStep (h : Hist) (cmd : String) : Option Hist :=
     match h.st.tx.ins[i]?, h.st.tx.ins[j]? with
     | some a, some b =>
       let ins := (h.st.tx.ins.set i { a with script := b.script, witness := b.witness }).set j { b with script := a.script, witness := a.witness }
-      some { h with st := { h.st with tx := { h.st.tx with ins := ins } } }
+      -- the unlocking data (and with it the signatures whose commitments are remembered) change places
+      some { h with st := { h.st with tx := { h.st.tx with ins := ins } }, map := swapAt h.map i j }
     | _, _ => some h
   | ["delout", j] => do let j ← parseNat? j; some { h with st := { h.st with tx := { h.st.tx with outs := h.st.tx.outs.eraseIdx j } } }
   | ["insout", j, o] => do
@@ -98,6 +165,9 @@ def applyStep (h : Hist) (cmd : String) : Option Hist :=
     let o ← (if o = "none" then some none else (parseTxOut? (o.replace "," ":")).map some)
     some { h with st := { h.st with us := h.st.us.set i o } }
   | ["usdrop"] => some { h with st := { h.st with us := h.st.us.dropLast } }
+  | ["uskey", i, b] => do let i ← parseNat? i; let b ← parseNat? b; modUs h i fun sc => flipDataBit sc b
+  | ["usnop", i] => do let i ← parseNat? i; modUs h i fun sc => some (sc ++ [0x61])
+  | ["uspre", i] => do let i ← parseNat? i; modUs h i fun sc => some (0x61 :: sc)
   | _ => none
 
 def exceptEq (a b : Except Sighash.Err (Option Bytes)) : Bool :=
@@ -106,22 +176,52 @@ def exceptEq (a b : Except Sighash.Err (Option Bytes)) : Bool :=
   | .ok none, .ok none => true
   | _, _ => false
 
-/-- the verdict the hash types dictate for position `j` of the current state: `'1'`/`'0'`, or `'?'` when the input's own
-unlocking data or the script it spends were edited (the verdict then depends on the interpreter, not on a commitment) -/
+/-- does the closure raise something `is_solution_ok` does not catch (a field outside its wire range: `struct.error`)?
+`ScriptError` (a refused hash type) is a verdict, not an escape -/
+def isRaise : Except Sighash.Err (Option Bytes) → Bool
+  | .error .scriptError => false
+  | .error _ => true
+  | .ok _ => false
+
+/-- what the commitments of the signed input say at position `j` of the current state, the script code being `code`:
+`'1'` every remembered preimage is what its signature commits to now; `'0'` one differs (or is refused); `'E'` every closure
+call raises past `is_solution_ok`; `'?'` some do and some do not (which one the interpreter asks first decides) -/
+def judge (c : Coin) (sg : Signed) (h : Hist) (j : Nat) (code : Bytes) : Char :=
+  let cur := sg.info.hts.map (preimageOf c h.st sg.info.witness code j)
+  if !cur.isEmpty && cur.all isRaise then 'E'
+  else if cur.any isRaise then '?'
+  else if (List.zip cur sg.pre).all (fun p => exceptEq p.1 p.2) then '1' else '0'
+
+/-- the verdict the hash types dictate for position `j` of the current state: `'1'`/`'0'`/`'E'` (the validation raises), or
+`'?'` when the verdict depends on the interpreter and not on a commitment (unlocking data edited; a spent script changed in a
+way no theorem speaks about) -/
 def dictated (c : Coin) (signed : List Signed) (h : Hist) (j : Nat) : Char :=
   match h.map[j]?.join, h.st.tx.ins[j]?, h.st.us[j]?.join with
   | some k, some tin, some uo =>
     match signed[k]? with
     | none => '0'
     | some sg =>
-      if !(tin.script == sg.script && tin.witness == sg.wit && uo.script == sg.spentScript) then '?'
-      else if (List.zip sg.info.hts sg.pre).all (fun p => exceptEq (preimageOf c h.st sg.info.witness sg.info.code j p.1) p.2)
-      then '1' else '0'
+      if !(tin.script == sg.script && tin.witness == sg.wit) then '?'
+      else if uo.script == sg.spentScript then judge c sg h j sg.info.code
+      else
+        let (kind, regions) := spkTemplate sg.spentScript
+        let dataOnly := dataDiffOnly regions sg.spentScript uo.script
+        if (kind == .p2pkh || kind == .p2sh || kind == .p2wpkh || kind == .p2wsh) && dataOnly then '0'
+        else if !sg.info.witness && sg.info.code == sg.spentScript && (kind == .p2pkh || kind == .p2pk || kind == .multisig) &&
+            (dataOnly || uo.script == sg.spentScript ++ [0x61] || uo.script == 0x61 :: sg.spentScript) then
+          -- the spent script is the script code: the signatures commit to the new one
+          match judge c sg h j uo.script with
+          | '1' => '?'
+          | 'E' => if dataOnly then '?' else 'E'    -- a changed key may not even parse: then the message is never asked for
+          | v => v
+        else '?'
   | _, _, _ => '0'
 
 def verdicts (c : Coin) (signed : List Signed) (h : Hist) : String :=
   let vs := (List.range h.st.tx.ins.length).map (dictated c signed h)
-  let bad := if vs.contains '?' then "?" else if h.st.tx.isCoinbase then "0" else toString (vs.filter (· == '0')).length
+  -- `bad_solution_count()`: 0 for a coinbase without validating; raises as soon as one validation raises
+  let bad := if vs.contains 'E' then (if h.st.tx.isCoinbase then "0" else "E")
+    else if vs.contains '?' then "?" else if h.st.tx.isCoinbase then "0" else toString (vs.filter (· == '0')).length
   String.ofList vs ++ "/" ++ bad
 
 def guardsOf (s : State) : String :=
@@ -151,6 +251,23 @@ def handle : Handler := fun op args =>
         go h' rest (verdicts c signed h' :: acc)
     let out ← go h0 cmds [verdicts c signed h0]
     some ("ok " ++ ";".intercalate out)
+  | "c06_each", [c, tx, us, infoS, steps] => do
+    let c ← parseCoin? c
+    let tx ← parseTx? tx; let us ← parseUnspents? us
+    let metas ← parseItems? parseInfo? infoS
+    let st0 : State := ⟨tx, us⟩
+    let signed : List Signed := (List.range tx.ins.length).filterMap fun k =>
+      match tx.ins[k]?, us[k]?.join, metas[k]? with
+      | some tin, some uo, some m =>
+        some ⟨tin.script, tin.witness, uo.script, m, m.hts.map (preimageOf c st0 m.witness m.code k)⟩
+      | some tin, _, some m => some ⟨tin.script, tin.witness, [], m, m.hts.map (fun _ => .error .indexError)⟩
+      | _, _, _ => none
+    let h0 : Hist := ⟨st0, (List.range tx.ins.length).map some⟩
+    let cmds := if steps = "~" then [] else steps.splitOn ";"
+    let outs ← cmds.mapM fun cmd => do
+      let h' ← applyStep h0 cmd
+      some (String.ofList ((List.range h'.st.tx.ins.length).map (dictated c signed h')))
+    some ("ok " ++ ";".intercalate (verdicts c signed h0 :: outs))
   | "c06_guards", [c, tx, us] => do
     let _ ← parseCoin? c
     let st : State := ⟨← parseTx? tx, ← parseUnspents? us⟩
